@@ -1178,7 +1178,39 @@ impl Gen {
         } else {
             self.run_var = None;
         }
-        match self.r.below(7) {
+        match self.r.below(9) {
+            7 => {
+                // an empty array stored as an element, then grown in place inside a loop
+                out.push(St::Make(v.clone(), ex(Ty::AAStr, EK::Arr(vec![]))));
+                self.scopes.last_mut().unwrap().push((v.clone(), Ty::AAStr));
+                out.push(St::Expr(method(Ty::Num, var(Ty::AAStr, &v), "push", vec![ex(Ty::AStr, EK::Arr(vec![]))])));
+                let counter = self.fresh("c");
+                let e = self.fresh_val(Ty::Str);
+                let inner = index(Ty::AStr, var(Ty::AAStr, &v), num(0.0));
+                let mut body = vec![St::Expr(method(Ty::Num, inner, "push", vec![e]))];
+                if self.r.chance(50) {
+                    body.push(self.churn());
+                }
+                out.push(St::Loop { counter, n: self.r.range(2, 4) as u32, body });
+                out.push(self.churn());
+                out.push(St::Shout(var(Ty::AAStr, &v)));
+            }
+            8 => {
+                // a function returns a string it popped off a local array
+                let f = self.fresh("f");
+                let l = self.fresh("v");
+                let (e1, e2) = (self.fresh_val(Ty::Str), self.fresh_val(Ty::Str));
+                let body = vec![
+                    St::Make(l.clone(), ex(Ty::AStr, EK::Arr(vec![e1, e2]))),
+                    St::Return(Some(method(Ty::Str, var(Ty::AStr, &l), "pop", vec![]))),
+                ];
+                out.push(St::Func { name: f.clone(), params: vec![], body });
+                out.push(St::Make(v.clone(), ex(Ty::Str, EK::Call(f.clone(), vec![]))));
+                self.scopes.last_mut().unwrap().push((v.clone(), Ty::Str));
+                out.push(St::Shout(bin(Ty::Str, ex(Ty::Str, EK::Call(f, vec![])), "add", var(Ty::Str, &v))));
+                out.push(self.churn());
+                out.push(St::Shout(var(Ty::Str, &v)));
+            }
             0 => {
                 // assigned inside a loop body, read after the loop
                 let first = self.fresh_val(t);
